@@ -157,7 +157,7 @@ func (g *Gen) Next(t *rapid.T) *Op {
 		maxTypes = g.P.MaxFill + comps.N // histories that must stay within the 64-bit mask (C20)
 	}
 	add("register", g.It.B[0].Cfg.Filler+comps.N+m.Extra < maxTypes)
-	add("dump", true)
+	add("dump", m.OpenQ < 60) // DumpEntities runs a query of its own: it needs a free lock bit
 	add("loadSaved", !locked && g.It.saved != nil)
 	add("probe", true)
 	if len(g.queue) > 0 {
